@@ -2,6 +2,8 @@ import SpoxModel.Lemmas.Prog
 import SpoxModel.Lemmas.ProgRename
 import SpoxModel.Lemmas.ProgUsed
 import SpoxModel.Generated.C01Entry
+import SpoxModel.Generated.C01Variadic
+import SpoxModel.Model.Containers
 /-!
 # C01 — a built model computes exactly the dataflow the program describes
 
@@ -236,6 +238,62 @@ theorem generated_entry_options_exercised :
     ∧ Generated.C01Entry.buildOptions = [("drop_unused_inputs", "False")]
     ∧ (Generated.C01Entry.toModelOptions.map (·.1)).all exercisedToModelOptions.contains = true
     ∧ Generated.C01Entry.graphSetters.all exercisedSetters.contains = true := by decide
+
+/-! ## Caller-owned containers: the dataflow is what was constructed -/
+
+section Containers
+open Containers
+
+/-- Whatever the caller does to its containers AFTER the last constructor call changes no operand of any
+    constructed node. -/
+theorem later_mutations_irrelevant (es ms : List Ev) (h : Nat → List Nat)
+    (hms : ms.all isSet = true) : snapshots (es ++ ms) h = snapshots es h := by
+  induction es generalizing h with
+  | nil =>
+    induction ms generalizing h with
+    | nil => rfl
+    | cons m ms ih =>
+      simp only [List.all_cons, Bool.and_eq_true] at hms
+      cases m with
+      | set l vs => simpa [snapshots] using ih hms.2 (upd h l vs)
+      | call l => simp [isSet] at hms
+  | cons e es ih =>
+    cases e with
+    | set l vs => simpa [snapshots] using ih (upd h l vs)
+    | call l => simp [snapshots, ih h]
+
+/-- A mutation between two calls affects only the later call: the operands of a node are exactly the
+    contents of its container at the moment of its construction. -/
+theorem operands_are_contents_at_call (es₁ es₂ : List Ev) (l : Nat) (h : Nat → List Nat) :
+    snapshots (es₁ ++ Ev.call l :: es₂) h
+      = snapshots es₁ h ++ finalHeap es₁ h l :: snapshots es₂ (finalHeap es₁ h) := by
+  induction es₁ generalizing h with
+  | nil => rfl
+  | cons e es ih =>
+    cases e with
+    | set l' vs => simpa [snapshots, finalHeap] using ih (upd h l' vs)
+    | call l' => simp [snapshots, finalHeap, ih h]
+
+/-- The held-out change (the node keeps the caller's list object): `terms = [a, b]; ab = concat(terms);
+    terms.append(c)` builds `concat(a, b, c)`. -/
+theorem aliasing_counterexample :
+    let es := [Ev.set 0 [1, 2], Ev.call 0, Ev.set 0 [1, 2, 3]]
+    snapshots es (fun _ => []) = [[1, 2]] ∧ aliased es (fun _ => []) = [[1, 2, 3]] := by decide
+
+end Containers
+
+/-- The constructor parameters the harness calls with a caller-owned list that is mutated after construction
+    (generator: concat max min sum mean einsum loop scan; probes: sequence_construct sequence_map
+    feature_vectorizer). -/
+def exercisedSequenceParams : List String :=
+  ["concat.inputs", "einsum.Inputs", "feature_vectorizer.X", "loop.v_initial", "max.data_0", "mean.data_0",
+   "min.data_0", "scan.initial_state_and_scan_inputs", "sequence_construct.inputs",
+   "sequence_map.additional_inputs", "sum.data_0"]
+
+/-- Generated from the opset modules on every run: every public constructor parameter annotated
+    `Sequence[Var]` is one the harness exercises with a mutated caller-owned list. -/
+theorem generated_sequence_parameters_exercised :
+    Generated.C01Variadic.sequenceParams.all exercisedSequenceParams.contains = true := by decide
 
 /-! ## Non-vacuity: concrete programs, concrete semantics -/
 
